@@ -41,6 +41,8 @@ impl Prop for C02 {
     fn required_probes(&self) -> Vec<String> {
         let v: Vec<&str> = vec![
             "relative_after_omitted_default_branch",
+            "two_messages_in_one_buffer",
+            "second_message_ambiguous_if_continued",
             "relative_after_unit_ending_on_branch",
             "common_between_relative_units",
             "leading_colon_after_deep_unit",
@@ -156,12 +158,40 @@ impl Prop for C02 {
                 }
                 units.push(u);
             }
-            let msg = Msg {
+            let mut msg = Msg {
                 units,
                 end: B::from(*rng.pick(&["", "", "\n", " ", ";", "\r\n"])),
             };
             let mut corrupt = Vec::new();
-            if rng.chance(p_corrupt, 100) {
+            let clean = msg.units.iter().all(|u| u.plan.fail.is_none()) && level_chain_defined(&tc, &msg);
+            // (the last unit carries no data: a decimal datum would take what follows as its suffix)
+            let clean = clean && msg.units.last().map(|u| u.params.is_empty()).unwrap_or(false);
+            if clean && rng.chance(1, 10) {
+                // two messages arrive in one buffer (the interface did not split at the
+                // terminator): the second one is a new message - it starts at the root, however
+                // its first header is spelled (half the time: as if it continued the first)
+                let li = if non_commons.is_empty() { *rng.pick(&commons) } else { *rng.pick(&non_commons) };
+                let leaf = tc.leaves[li].clone();
+                let continued = rng.chance(1, 2);
+                let (_, path) = if continued {
+                    spell_header(&mut rng, &tc, &leaf, &level, false, omit)
+                } else {
+                    spell_header(&mut rng, &tc, &leaf, &[], true, omit)
+                };
+                let second = Msg {
+                    units: vec![Unit {
+                        colon: false,
+                        path,
+                        query: rng.chance(1, 2),
+                        ..Default::default()
+                    }],
+                    end: B::from(*rng.pick(&["", "\n"])),
+                };
+                msg.end = B::from(*rng.pick(&["\n", "\r\n", " \n"]));
+                corrupt = vec![Corrupt::Splice {
+                    tail: B(crate::msg::render(&second)),
+                }];
+            } else if rng.chance(p_corrupt, 100) {
                 let bytes = crate::msg::render(&msg);
                 let n = rng.urange(1, 2);
                 corrupt = gen_corruption(&mut rng, &bytes, n, None);
@@ -198,6 +228,18 @@ impl Prop for C02 {
     }
 }
 
+/// every unit of the message designates a node (no undefined header was generated)
+fn level_chain_defined(tc: &TreeCtx, m: &Msg) -> bool {
+    let mut level: Vec<usize> = Vec::new();
+    for (i, u) in m.units.iter().enumerate() {
+        match level_after(tc, &level, i == 0, u.colon, &u.path) {
+            Some(l) => level = l,
+            None => return false,
+        }
+    }
+    true
+}
+
 #[derive(PartialEq)]
 enum Prev {
     None,
@@ -213,6 +255,13 @@ struct H02 {
 
 impl StepHandler for H02 {
     fn on_send(&mut self, world: &mut World, before: &ModelState, i: usize, s: &SendStep, o: &SendObs, stats: &mut Stats, out: &mut Vec<Finding>) {
+        if let ([Corrupt::Splice { tail }], true) = (s.corrupt.as_slice(), s.msg.end.as_slice().ends_with(b"\n")) {
+            if let Some(m2) = crate::msg::parse_strict(tail.as_slice()) {
+                self.prev = Prev::Corrupted;
+                two_messages_in_one_buffer(world, before, i, s, m2, o, stats, out);
+                return;
+            }
+        }
         let pred = super::predict_seen(world, before, s, o, Reading::Condition);
         if !pred.structural {
             self.prev = Prev::Corrupted;
@@ -339,4 +388,55 @@ fn anon_leaf(t: &TreeDesc, h: usize) -> bool {
         }
     }
     t.app.iter().any(|c| rec(c, h))
+}
+
+/// A buffer holding a complete, terminated message followed by a second one. The terminator ends
+/// the first message, so either the buffer is refused there (command error, after the first
+/// message ran - what the library does), or the second message is executed as what it is: a new
+/// message, resolved from the root.
+fn two_messages_in_one_buffer(world: &mut World, before: &ModelState, i: usize, s: &SendStep, m2: Msg, o: &SendObs, stats: &mut Stats, out: &mut Vec<Finding>) {
+    let mut s1 = s.clone();
+    s1.corrupt.clear();
+    let p1 = predict(&world.root, before, &s1, Reading::Condition);
+    let s2 = SendStep {
+        ctl: s.ctl,
+        fmt: s.fmt.clone(),
+        msg: m2,
+        corrupt: vec![],
+    };
+    let p2 = predict(&world.root, &p1.state, &s2, Reading::Condition);
+    if !p1.structural || !p2.structural || p1.result.is_err() {
+        return;
+    }
+    stats.probe("two_messages_in_one_buffer");
+    // would the second message mean something else if it were (wrongly) taken as a continuation?
+    let mut joined = s1.clone();
+    joined.msg.units.extend(s2.msg.units.iter().cloned());
+    let pj = predict(&world.root, before, &joined, Reading::Condition);
+    if pj.structural && (pj.result.is_ok() != p2.result.is_ok() || pj.calls.iter().map(|c| c.h).collect::<Vec<_>>() != p1.calls.iter().chain(p2.calls.iter()).map(|c| c.h).collect::<Vec<_>>()) {
+        stats.probe("second_message_ambiguous_if_continued");
+    }
+    // (refused while looking past the terminator: the last unit of the first message may or may
+    // not have run)
+    let refused = matches!(&o.result, Err(e) if is_command_error(e.code)) && o.calls.len() <= p1.calls.len() && o.calls.len() + 1 >= p1.calls.len();
+    let mut comb = p1.clone();
+    if !refused {
+        let shift = s1.msg.units.len();
+        comb.calls.extend(p2.calls.iter().cloned().map(|mut c| {
+            c.unit += shift;
+            c
+        }));
+        comb.result = p2.result.clone();
+    } else {
+        comb.result = Err(ExpErr::CommandClass);
+        comb.calls.truncate(o.calls.len());
+    }
+    let msgd = format!("{:?} (two messages in one buffer)", B(o.bytes.clone()));
+    if let Some(df) = cmp_dispatch(&comb, o) {
+        out.push(Finding::new("C02.new_message_from_root", format!("second_message_in_buffer_{}", df.sig), i, format!("{}: {}", msgd, df.detail)));
+        return;
+    }
+    if let Some(df) = cmp_result(&comb, o) {
+        out.push(Finding::new("C02.new_message_from_root", format!("second_message_in_buffer_{}", df.sig), i, format!("{}: {}", msgd, df.detail)));
+    }
 }
